@@ -15,16 +15,23 @@ Definition close (a b : Q) : bool :=
 (* rate law of the trace runs: consumption lam*m + r1*t *)
 Definition trace_rate (lam r1 : Q) : Q -> Q -> Q := fun t m => lam * m + r1 * t.
 
-(* (state, time) handed to the six evaluations of a step *)
+(* (state, time) handed to the six evaluations of a step.  calc_final_kinetic_reaction never lets a stage ask
+   for more than the reactant has (moles > m_temp -> moles := m_temp, m := 0), hence [pos0] around every state;
+   when no state is negative this is RK.k1 .. RK.k6 (lemma points_unclamped below). *)
 Definition points (S : scheme) (f : Q -> Q -> Q) (t0 hs h m0 : Q) : list (Q * Q) :=
+  let a1 := Qred (h * f (t1 S t0 hs h) m0) in
+  let m2 := Qred (pos0 (m0 - s2 S a1 0 0 0 0 0)) in let a2 := Qred (h * f (t2 S t0 hs h) m2) in
+  let m3 := Qred (pos0 (m0 - s3 S a1 a2 0 0 0 0)) in let a3 := Qred (h * f (t3 S t0 hs h) m3) in
+  let m4 := Qred (pos0 (m0 - s4 S a1 a2 a3 0 0 0)) in let a4 := Qred (h * f (t4 S t0 hs h) m4) in
+  let m5 := Qred (pos0 (m0 - s5 S a1 a2 a3 a4 0 0)) in let a5 := Qred (h * f (t5 S t0 hs h) m5) in
+  let m6 := Qred (pos0 (m0 - s6 S a1 a2 a3 a4 a5 0)) in
+  [ (m0, t1 S t0 hs h); (m2, t2 S t0 hs h); (m3, t3 S t0 hs h); (m4, t4 S t0 hs h); (m5, t5 S t0 hs h); (m6, t6 S t0 hs h) ].
+
+Definition all_states_nonneg (S : scheme) (f : Q -> Q -> Q) (t0 hs h m0 : Q) : bool :=
   let a1 := k1 S f t0 hs h m0 in let a2 := k2 S f t0 hs h m0 in let a3 := k3 S f t0 hs h m0 in
   let a4 := k4 S f t0 hs h m0 in let a5 := k5 S f t0 hs h m0 in
-  [ (m0, t1 S t0 hs h);
-    (m0 - s2 S a1 0 0 0 0 0, t2 S t0 hs h);
-    (m0 - s3 S a1 a2 0 0 0 0, t3 S t0 hs h);
-    (m0 - s4 S a1 a2 a3 0 0 0, t4 S t0 hs h);
-    (m0 - s5 S a1 a2 a3 a4 0 0, t5 S t0 hs h);
-    (m0 - s6 S a1 a2 a3 a4 a5 0, t6 S t0 hs h) ].
+  Qle_bool 0 (m0 - s2 S a1 0 0 0 0 0) && Qle_bool 0 (m0 - s3 S a1 a2 0 0 0 0) && Qle_bool 0 (m0 - s4 S a1 a2 a3 0 0 0) &&
+  Qle_bool 0 (m0 - s5 S a1 a2 a3 a4 0 0) && Qle_bool 0 (m0 - s6 S a1 a2 a3 a4 a5 0).
 
 Definition rec := (Q * Q * Q)%type.      (* recorded M, TOTAL_TIME, TIME *)
 Definition rM (r : rec) := fst (fst r).
@@ -38,28 +45,47 @@ Fixpoint match_points (h : Q) (ps : list (Q * Q)) (rs : list rec) : bool :=
   | p :: ps', r :: rs' => close (rM r) (fst p) && close (rT r) (snd p) && close (rH r) h && match_points h ps' rs'
   end.
 
+(* the rate evaluations k1..k5 of the (clamped) attempt, as the code stores them in rk_moles *)
+Definition kvals (S : scheme) (f : Q -> Q -> Q) (t0 hs h m0 : Q) : list Q :=
+  map (fun p => h * f (snd p) (fst p)) (firstn 5 (points S f t0 hs h m0)).
+
+(* first evaluation whose size exceeds moles_max: the code jumps to MOLES_TOO_LARGE right after storing it *)
+Fixpoint first_big (l : list Q) (i : nat) : option (nat * Q) :=
+  match l with
+  | [] => None
+  | k :: r => if Qltb g_moles_max (Qabs k) then Some (i, Qabs k) else first_big r (S i)
+  end.
+
 Definition trace_ok (lam r1 m0 T tol : Q) (rs : list rec) : bool :=
   let f := trace_rate lam r1 in
   let first := points CK f 0 0 T m0 in
-  let err := Qred (Qabs (step_est CK f 0 0 T m0) / tol) in
-  let a1 := k1 CK f 0 0 T m0 in
-  if Qltb g_moles_max (Qabs a1) then
-    (* first rate larger than moles_max: step reduced at once (MOLES_TOO_LARGE), evaluations 2..6 use the new h *)
-    let h' := g_h_reduce T (Qabs a1 / g_moles_max) in
-    match rs with
-    | [] => false
-    | r1 :: rest => close (rM r1) m0 && close (rT r1) 0 && close (rH r1) T && match_points h' (tl (points CK f 0 0 h' m0)) rest
+  match first_big (kvals CK f 0 0 T m0) 1 with
+  | Some (i, ki) =>
+    (* evaluations 1..i were made with h = T; then the step was cut and evaluation 2 of the retry follows *)
+    let h' := g_h_reduce T (ki / g_moles_max) in
+    match_points T (firstn i first) rs &&
+    match nth_error rs i with
+    | Some r => close (rH r) h' && match_points h' (firstn 1 (tl (points CK f 0 0 h' m0))) [r]
+    | None => true
     end
-  else
+  | None =>
+  let err := Qred (Qabs (step_est CK f 0 0 T m0) / tol) in
   match_points T first rs &&
+  if negb (all_states_nonneg CK f 0 0 T m0) then true   (* a stage was clamped: only the six recorded points are compared *)
+  else
   match skipn 6 rs with
   | [] => false
   | r7 :: rest =>
     if Qltb g_err_limit err then
-      (* rejected: new step size, then evaluations 2..6 of the retry *)
+      (* rejected: new step size, then evaluations 2..6 of the retry (as far as no further cut occurs) *)
       let h' := rH r7 in
-      close h' (g_h_reject_first T err) && match_points h' (tl (points CK f 0 0 h' m0)) (r7 :: rest)
+      close h' (g_h_reject_first T err) &&
+      match first_big (kvals CK f 0 0 h' m0) 1 with
+      | Some (i, _) => match_points h' (firstn (i - 1) (tl (points CK f 0 0 h' m0))) (r7 :: rest)
+      | None => match_points h' (tl (points CK f 0 0 h' m0)) (r7 :: rest)
+      end
     else
       (* accepted: the next call sees the new amount *)
-      close (rM r7) (step_m CK f 0 0 T m0)
+      close (rM r7) (pos0 (step_m CK f 0 0 T m0))
+  end
   end.
